@@ -30,6 +30,8 @@ func (o Op) String() string {
 		return fmt.Sprintf("sched(p%d,node#%d)", o.A, o.B)
 	case "schedcf":
 		return fmt.Sprintf("sched-provider-fails(p%d,node#%d)", o.A, o.B)
+	case "schedlost":
+		return fmt.Sprintf("sched-bind-response-lost(p%d,node#%d)", o.A, o.B)
 	case "delivercf":
 		return fmt.Sprintf("deliver-provider-fails-once(%d)", o.A)
 	}
@@ -37,7 +39,7 @@ func (o Op) String() string {
 }
 
 // isSched: a scheduling attempt (Filter then Bind on an offered node), with or without a provider failure.
-func isSched(kind string) bool { return kind == "sched" || kind == "schedcf" }
+func isSched(kind string) bool { return kind == "sched" || kind == "schedcf" || kind == "schedlost" }
 
 // Obs is what an operation returned (used by oracles).
 type Obs struct {
@@ -116,6 +118,10 @@ func (h *HistSys) Enabled(w *world.World) []Op {
 			if len(w.Cfg.Nodes) > 2 {
 				ops = append(ops, Op{Kind: "sched", A: i, B: 1})
 			}
+			if h.Ops["lostresp"] {
+				// the binding is applied by the API server but its response is lost; kube-scheduler tries again later
+				ops = append(ops, Op{Kind: "schedlost", A: i, B: 0})
+			}
 			if h.Ops["cloudfail"] && w.Cloud != nil {
 				// one scheduling attempt during which the next provider call fails cleanly (kube-scheduler retries later)
 				ops = append(ops, Op{Kind: "schedcf", A: i, B: 0})
@@ -178,7 +184,11 @@ func (h *HistSys) Apply(w *world.World, op Op) Obs {
 	switch op.Kind {
 	case "create":
 		w.CreatePod(h.pod(op.A))
-	case "sched", "schedcf":
+	case "sched", "schedcf", "schedlost":
+		if op.Kind == "schedlost" {
+			w.LoseBindResponse = true
+			defer func() { w.LoseBindResponse = false }()
+		}
 		if op.Kind == "schedcf" {
 			w.Cloud.FailNext()
 			defer func() { w.Cloud.FailAt = 0 }()
